@@ -132,6 +132,12 @@ def check_correlation(ctx, spec, temps, batch, key, acc=None, library=None, do_p
         ctx.case(None)
         batch.append(({'op': 'c05.eval', 'cor': L.jspec(spec, {}), 'T': L.J(spec['tref']), 'want': []}, {'mk': mk}, inp0, None))
         return None
+    if spec.get('via_update') and spec['pts']:
+        prob = L.held_data_problem(obj, spec)
+        ctx.count('held_data_checks')
+        if prob:
+            ctx.violation('after a history of API calls the correlation does not hold the data it was given (so it cannot reproduce its table)',
+                          inp0, expected='the data of the specification', observed=prob)
     rd = L.inner(obj)
     has_cp = bool(spec['pts'])
     if acc is not None and rd is not None and ctx.rng.random() < 0.25:
@@ -345,6 +351,7 @@ def grid(ctx, batch, acc, reps):
                     if kind != 'raw' and rng.random() < 0.3:
                         spec['via_update'] = rng.choice(L.WAYS)
                         ctx.count('built_via_update')
+                        ctx.count('way_%s' % spec['via_update'])
                     check_correlation(ctx, spec, sorted(temps.items()), batch, (kind, n, rkind, pact), acc)
         if ctx.time_left() < 120:
             raise common.MachineryError('time budget exhausted in the C05 grid')
